@@ -176,3 +176,32 @@ async fn vf_listener_failures_at_connect() {
     }
     println!("VF-SUMMARY test=listener_failures_at_connect checked={} nontrivial={} bad={}", checked, checked - 1, bad);
 }
+
+#[tokio::test(flavor = "multi_thread", worker_threads = 4)]
+async fn vf_order_with_unusual_target_paths() {
+    // C04 / C06 for target paths that are long and not ASCII (they appear in log headers, digests, directory names): the dependent still
+    // starts only after its dependency has exited, both are reported, the run does not fail
+    let (mut checked, mut bad) = (0u64, 0u64);
+    for dep in ["libs/データ変換パイプライン共通部品", "libs/a-very-long-directory-name-that-goes-on-and-on-well-past-forty-bytes/ünïcödé", "libs/短い"] {
+        checked += 1;
+        let td = crate::core::testing::new_testdir().unwrap();
+        let wp = td.path();
+        let trace = wp.join("trace.txt");
+        for (t, d) in [(dep, "0.4"), ("app", "0.01")] {
+            script(&wp.join(t).join("monorail/cmd"), "first.sh", &format!("echo \"S first {n}\" >> '{tr}'\necho out; echo err 1>&2\nsleep {d}\necho \"E first {n}\" >> '{tr}'\nexit 0", n = if t == "app" { "app" } else { "dep" }, tr = trace.display(), d = d));
+        }
+        let cfg: core::Config = serde_json::from_str(&format!("{{\"targets\":[{{\"path\":\"app\",\"uses\":[\"{}\"]}},{{\"path\":\"{}\"}}]}}", dep, dep)).unwrap();
+        let c1 = "first".to_string();
+        let o = match tokio::time::timeout(std::time::Duration::from_secs(30), handle_run(&cfg, &input(vec![&c1]), "x", wp)).await { Ok(o) => o, Err(_) => Err(MonorailError::from("the run did not return within 30 s")) };
+        let tr = parse_trace(&trace);
+        let pos = |k: &str, n: &str| tr.iter().position(|(a, _, c)| a == k && c == n);
+        let mut why = None;
+        match (pos("S", "app"), pos("E", "dep")) { (Some(sa), Some(ed)) => if sa < ed { why = Some(format!("`app` started before its dependency had exited (events {:?}) (C04)", tr.iter().map(|(a, _, c)| format!("{} {}", a, c)).collect::<Vec<_>>())); }, _ => { why = Some(format!("not both executables ran to completion (events {:?}) (C04)", tr.iter().map(|(a, _, c)| format!("{} {}", a, c)).collect::<Vec<_>>())); } }
+        match &o { Ok(out) => { if out.failed { why = Some("the run reports failed=true although both executables exit 0 (C06)".to_string()); }
+                let listed: usize = out.results.iter().map(|c| c.target_groups.iter().map(|g| g.len()).sum::<usize>()).sum();
+                if listed != 2 && why.is_none() { why = Some(format!("the result document lists {} targets for the command, 2 were run (C05)", listed)); } }
+            Err(e) => { why = Some(format!("handle_run failed: {} (C06)", e)); } }
+        if let Some(w) = why { bad += 1; println!("VF-FAIL `app` uses `{}` (a {}-byte, non-ASCII target path), one command :: {}", dep, dep.len(), w); }
+    }
+    println!("VF-SUMMARY test=order_with_unusual_target_paths checked={} nontrivial={} bad={}", checked, checked, bad);
+}
